@@ -41,9 +41,10 @@ theorem exec_cases :
        "return return nil, protocol.NewFatalClientErr(nil, \"E_INVALID\", fmt.Sprintf(\"invalid command %s\", params[0]))"] := by
   decide
 
-/-- (the extractor collapses runs of blanks inside the printed expression: `"  V1"` prints as `" V1"`) -/
+/-- the four magic bytes are blank, blank, `V`, `1` (since audit round 7 / B28 the extractor keeps white space
+inside string literals: before, `"  V1"` was printed — and pinned — as `" V1"`) -/
 theorem magic_cases :
-    LookupdProto.magicCases = ["assign _, err := io.ReadFull(conn, buf)", "case \" V1\""] := by decide
+    LookupdProto.magicCases = ["assign _, err := io.ReadFull(conn, buf)", "case \"  V1\""] := by decide
 
 
 /-- The DB key of a connection (`PeerInfo.id`, unexported, so not a JSON member) is set once,
